@@ -87,6 +87,9 @@ func TestWorker(t *testing.T) {
 		rc := fw.Execute(t, sc, tier, seed, i, tape, false)
 		agg.Add(rc, maxSamples)
 		agg.LastIndex = i
+		if rc.FullTrace != "" {
+			fmt.Printf("trace index=%d %s\n", i, rc.FullTrace)
+		}
 		if verbose {
 			fmt.Printf("run index=%d steps=%d strategy=%s digest=%x violation=%v\n", i, rc.Steps, rc.Strategy, rc.Digest, rc.Violation)
 		}
